@@ -33,13 +33,13 @@ REQUIRED_FEATURES = ["fault:invalid-record:bin=nbins", "fault:invalid-record:bin
                      "fault:invalid-record:duplicate", "fault:iterator-exception", "fault:line-failpoint",
                      "fault:process-exit", "producer:create", "producer:create-unordered", "producer:merge",
                      "producer:coarsen", "dest:new-file-root", "dest:new-file-nested", "dest:populated-root",
-                     "dest:new-group", "dest:existing-empty-group", "dest:existing-noncooler-group",
+                     "dest:new-group", "dest:existing-empty-group", "dest:existing-noncooler-group", "dest:existing-link-alias",
                      "phase:write_pixels", "phase:create", "phase:write_info", "phase:write_indexes",
                      "options:metadata", "options:assembly+h5opts"]
 SHARD_TIMEOUT = {"quick": 1800, "thorough": 7200}
 
 DESTS = ["new-file-root", "new-file-nested", "populated-root", "new-group", "existing-empty-group",
-         "existing-noncooler-group"]
+         "existing-noncooler-group", "existing-link-alias"]
 
 
 def plan(tier, seed):
@@ -100,8 +100,15 @@ class Env:
                 g = f.create_group("/dst")
                 g.create_dataset("junk", data=np.arange(3))
                 g.attrs["format"] = "something else"
+            elif dest_kind == "existing-link-alias":
+                # the destination path is a second name (hard or soft link) of a neighbour collection: creating
+                # there replaces the NAME; the neighbour it pointed to is another collection and must survive
+                if rng.random() < 0.5:
+                    f["/dst"] = f[paths[0]]
+                else:
+                    f["/dst"] = h5py.SoftLink(paths[0])
         self.group = {"populated-root": "/", "new-group": "/fresh/dst", "existing-empty-group": "/dst",
-                      "existing-noncooler-group": "/dst"}[dest_kind]
+                      "existing-noncooler-group": "/dst", "existing-link-alias": "/dst"}[dest_kind]
         if dest_kind == "new-group" and rng.random() < 0.5:
             self.group = "/resolutions/5000"
         self.snapshot()
@@ -115,6 +122,8 @@ class Env:
         self.neigh = {}
         with h5py.File(self.path, "r") as f:
             for p in cooler.fileops.list_coolers(self.path):
+                if p == self.group and self.dest_kind == "existing-link-alias":
+                    continue
                 self.neigh[p] = h5state.content_digest(f[p], skip_attrs=())
             self.foreign = {"attr:lab": f.attrs.get("lab"), "attr:answer": int(f.attrs.get("answer", -1)),
                             "foreign/data": f["/foreign/data"][:].tolist(), "foreign@note": f["/foreign"].attrs.get("note"),
@@ -142,6 +151,9 @@ class Env:
             bad = h5state.validate_uri(self.path, self.group)
             c.check(not bad, f"late-fault-left-invalid-cooler:{what}",
                     f"a fault after the last write left a recognised but invalid collection: {bad[:2]}")
+            listing = [p for p in listing if p != self.group]
+        elif self.dest_kind == "existing-link-alias":
+            # the name did hold a cooler before (the property's not-recognised clause is stated for the other case)
             listing = [p for p in listing if p != self.group]
         else:
             c.check(not rec, f"failed-destination-recognised:{what}",
